@@ -4,6 +4,7 @@
 
 use vcommon::{Report, ShardArgs};
 
+mod c03;
 mod c16;
 mod c17;
 mod c19;
@@ -17,6 +18,7 @@ fn main() {
 		.build()
 		.expect("runtime");
 	match args.prop.as_str() {
+		"C03" => rt.block_on(c03::run(&args, &mut rep)),
 		"C16" => c16::run(&args, &mut rep),
 		"C17" => c17::run(&args, &mut rep),
 		"C19" => c19::run(&args, &mut rep),
